@@ -79,6 +79,17 @@ func c18Values() []c18Value {
 		add("Destination(parsed)", &d, err)
 		ri, _, err := router_identity.ReadRouterIdentity(id.Bytes)
 		add("RouterIdentity(parsed)", ri, err)
+		kc2, err := adapt.KAC(id.Value.(refmodel.KeysAndCert))
+		add("KeysAndCert(constructed)", kc2, err)
+		d2, err := adapt.Destination(id.Value.(refmodel.KeysAndCert))
+		add("Destination(constructed)", d2, err)
+		b := certificate.NewCertificateBuilder()
+		b.WithKeyTypes(7, 4)
+		c3, err := b.Build()
+		add("Certificate(builder)", c3, err)
+		legacy := refmodel.NewKAC(0, 0, true, nil, func() []byte { x := refmodel.Fill("lc", 1, 256); x[0] = 0x11; return x }(), nil, gen.Key(0, 21).Pub)
+		d3, _, err := destination.ReadDestination(legacy.Bytes())
+		add("Destination(parsed, NULL certificate)", &d3, err)
 	}
 	{
 		a := refmodel.RouterAddress{Cost: 5, Style: []byte("NTCP2"), Options: gen.MappingMenu[8]}
@@ -226,6 +237,9 @@ func c18Ops(val c18Value) []c18Op {
 				ops = append(ops, c18Op{m.Name + "(\"host\")", func() string { return renderOuts(fn.Call([]reflect.Value{reflect.ValueOf("host").Convert(at)})) }})
 			case at.Kind() == reflect.Int:
 				ops = append(ops, c18Op{m.Name + "(1)", func() string { return renderOuts(fn.Call([]reflect.Value{reflect.ValueOf(1)})) }})
+			case at.Kind() == reflect.Slice && at.Elem().Kind() == reflect.Uint8:
+				key := gen.Key(7, 61).Pub // the identity key of the OfflineAlone default
+				ops = append(ops, c18Op{m.Name + "(key)", func() string { return renderOuts(fn.Call([]reflect.Value{reflect.ValueOf(key).Convert(at)})) }})
 			case at.Kind() == reflect.Uint8:
 				ops = append(ops, c18Op{m.Name + "(3)", func() string { return renderOuts(fn.Call([]reflect.Value{reflect.ValueOf(uint8(3))})) }})
 			}
